@@ -150,14 +150,17 @@ Definition as_nat (s : sexp) : option nat :=
 Definition as_N (s : sexp) : option N :=
   match s with SNum z => Some (Z.to_N z) | _ => None end.
 
-Fixpoint map_opt {A B} (f : A -> option B) (l : list A) : option (list B) :=
-  match l with
-  | [] => Some []
-  | x :: r => match f x, map_opt f r with
-              | Some y, Some ys => Some (y :: ys)
-              | _, _ => None
-              end
-  end.
+Section MapOpt.
+  Context {A B : Type} (f : A -> option B).
+  Fixpoint map_opt (l : list A) : option (list B) :=
+    match l with
+    | [] => Some []
+    | x :: r => match f x, map_opt r with
+                | Some y, Some ys => Some (y :: ys)
+                | _, _ => None
+                end
+    end.
+End MapOpt.
 
 (* optional value: () = None, (x) = Some x *)
 Definition as_opt {A} (f : sexp -> option A) (s : sexp) : option (option A) :=
